@@ -3,7 +3,7 @@ Q, T = "quick", "thorough"
 PROP = dict(
     level="exploration",
     level_text="Sanitizer-monitored fuzzing of the real entry points: structure-aware mutations of the shipped decks (INCLUDE "
-               "content flattened into the mutated text), of grammar-generated decks and of shipped binary/formatted result files "
+               "content flattened into the mutated text), of grammar-generated decks, of generated complete models (72 schedule templates, optional phases, analytic aquifer, random SUMMARY section) and of shipped binary/formatted result files "
                "run through Parser -> EclipseState -> Schedule -> SummaryConfig and through EclFile/ERst/ESmry/ExtESmry/EGrid/ERft/"
                "EInit in an AddressSanitizer+UBSan build with fatal reports. A pass is a result or a std::exception; a sanitizer "
                "report, signal, abort, non-std exception or a case that, run alone, needs more than 120 CPU seconds is a violation keyed by its site.",
